@@ -34,6 +34,7 @@ import (
 	"time"
 
 	"github.com/restic/restic/internal/backend"
+	"github.com/restic/restic/internal/backend/sema"
 	"github.com/restic/restic/internal/repository"
 	"github.com/restic/restic/internal/restic"
 	"github.com/restic/restic/internal/verifshim/gatebe"
@@ -61,6 +62,12 @@ type verifC13Exec struct {
 	maxAge       time.Duration
 	down         bool
 	downs        int
+	// traffic variant
+	lockWritesFail bool
+	lwfUsed        bool
+	lost           bool // the holder has logged that its stale lock could not be refreshed
+	uploads        int
+	lateUploads    []string
 }
 
 const (
@@ -81,9 +88,18 @@ func TestVerif_C13(t *testing.T) {
 	}
 	base := store0.Snapshot()
 	bound := vh.Pick(r, 2, 3)
-	for _, quantum := range []time.Duration{4 * time.Minute, 10 * time.Minute} {
-		quantum := quantum
+	type variant struct {
+		quantum time.Duration
+		traffic bool
+	}
+	for _, v := range []variant{{4 * time.Minute, false}, {10 * time.Minute, false}, {4 * time.Minute, true}} {
+		quantum, traffic := v.quantum, v.traffic
 		name := fmt.Sprintf("holder/stall=%v", quantum)
+		if traffic {
+			// the holder also uploads data through the connection-limiting (freezable) backend layer; once it
+			// has found its lock lost, no upload may take effect any more
+			name = "holder+uploads"
+		}
 		sc := xplore.Scenario{
 			Start: func(x *xplore.Exec) {
 				st := &verifC13Exec{store: gatebe.NewStoreFrom(base, nil), minAgeMargin: time.Hour}
@@ -96,15 +112,29 @@ func TestVerif_C13(t *testing.T) {
 						}
 						return nil
 					},
-					Filter: func(op *gatebe.Op) bool { return op.Key.Type == backend.LockFile },
+					Filter: func(op *gatebe.Op) bool {
+						return op.Key.Type == backend.LockFile || (traffic && op.Key.Type == backend.PackFile && st.lwfUsed)
+					},
 					Alts: func(op *gatebe.Op) []string {
-						if st.down {
-							return []string{"err"} // the backend is unreachable
+						if st.down || (st.lockWritesFail && op.Kind == "Save" && op.Key.Type == backend.LockFile) {
+							return []string{"err"} // the backend is unreachable / the locks directory is not writable
+						}
+						if op.Key.Type == backend.PackFile {
+							return []string{"ok"}
 						}
 						return []string{"ok", "err"}
 					},
 				}
 				be.Observe = func(op *gatebe.Op, ans string, err error) {
+					if op.Key.Type == backend.PackFile && op.Kind == "Save" {
+						if ans == "ok" && err == nil {
+							st.uploads++
+							if st.lost {
+								st.lateUploads = append(st.lateUploads, op.Key.String())
+							}
+						}
+						return
+					}
 					if op.Kind == "Remove" && ans == "cancelled" {
 						st.removeFailed = true // stalled beyond the 1-minute grace period of unlock and given up
 					}
@@ -117,7 +147,11 @@ func TestVerif_C13(t *testing.T) {
 						}
 					}
 				}
-				repo, err := oracle.OpenOn(x.Ctx, be, repository.Options{})
+				var top backend.Backend = be
+				if traffic {
+					top = sema.NewBackend(be) // the real connection limiter: implements Freeze/Unfreeze
+				}
+				repo, err := oracle.OpenOn(x.Ctx, top, repository.Options{})
 				if err != nil {
 					t.Fatalf("open: %v", err)
 				}
@@ -128,16 +162,37 @@ func TestVerif_C13(t *testing.T) {
 				}
 				x.Go("H", func() {
 					// acquisition is C12's subject: not gated here
-					unlock, lctx, err := repository.LockRepo(x.Ctx, repo, false, 0, func(string) {}, func(string, ...any) {})
+					logger := func(format string, _ ...any) {
+						if traffic && strings.Contains(format, "failed to refresh stale lock") {
+							// restic tells the user that the lock is lost; printing may be slow: a scheduling point
+							st.lost = true
+							x.Gate(xplore.Event{Key: "H:prints-lock-lost", Proc: "H", Kind: "log", Yield: true})
+						}
+					}
+					unlock, lctx, err := repository.LockRepo(x.Ctx, repo, false, 0, func(string) {}, logger)
 					st.lockErr, st.returned = err, true
 					if err != nil {
 						return
 					}
 					st.lockCtx, st.holding = lctx, true
 					armed = true
+					if traffic {
+						x.Go("W", func() {
+							for i := 0; ; i++ {
+								select {
+								case <-lctx.Done():
+									return
+								case <-time.After(2 * time.Minute):
+								}
+								data := oracle.LCG(uint64(7000+i), 200)
+								name := restic.Hash(data).String()
+								_ = top.Save(lctx, backend.Handle{Type: backend.PackFile, Name: name}, backend.NewByteReader(data, top.Hasher()))
+							}
+						})
+					}
 					// work for 75 minutes or until the lock is lost
 					select {
-					case <-time.After(75 * time.Minute):
+					case <-time.After(verifC13Horizon(traffic)):
 					case <-lctx.Done():
 						st.cancelled = true
 					}
@@ -151,7 +206,10 @@ func TestVerif_C13(t *testing.T) {
 					return nil
 				}
 				var acts []xplore.Action
-				if !st.down && st.downs == 0 {
+				if traffic && !st.lwfUsed {
+					acts = append(acts, xplore.Action{Name: "lock-writes-start-failing", Do: func(x *xplore.Exec) { st.lockWritesFail, st.lwfUsed = true, true; st.faults++ }})
+				}
+				if !traffic && !st.down && st.downs == 0 {
 					acts = append(acts, xplore.Action{Name: "backend-down", Do: func(x *xplore.Exec) { st.down = true; st.downs++; st.faults++ }})
 				}
 				if st.down {
@@ -213,6 +271,9 @@ func TestVerif_C13(t *testing.T) {
 					st.bad = append(st.bad, fmt.Sprintf("leftover: %d lock file(s) of the holder remain after Unlock although no removal was made to fail: %v (deadlock=%v horizon=%v idlewaits=%d steps=%d)", n, names, x.Deadlock, x.Horizon, x.IdleWaits, x.StepNo))
 				}
 			}
+			if len(st.lateUploads) > 0 {
+				st.bad = append([]string{fmt.Sprintf("late-upload: %d upload(s) took effect after the holder had found its lock lost (stale-lock refresh failed): %v", len(st.lateUploads), st.lateUploads)}, st.bad...)
+			}
 			if len(st.bad) > 0 {
 				kind := strings.SplitN(st.bad[0], ":", 2)[0]
 				key := "C13|" + kind + "|" + name
@@ -235,6 +296,13 @@ func TestVerif_C13(t *testing.T) {
 		r.Note("%s: execs(this shard)=%d", name, stt.Execs)
 	}
 	r.Extra("deviation_bound", bound)
+}
+
+func verifC13Horizon(traffic bool) time.Duration {
+	if traffic {
+		return 40 * time.Minute
+	}
+	return 75 * time.Minute
 }
 
 func verifC13Load(ctx context.Context, st *verifC13Exec, k gatebe.FileKey) (repository.Lock, error) {
